@@ -118,6 +118,14 @@ def check(c, item):
     iface.py_prep_deterministic_simulation()
     res2 = DeterministicSimulator().py_simulate(iface, times)
     outs['DeterministicSimulator'] = np.asarray(res2.py_get_result())[:, perm]
+    # the same interface again: a second run, and a run after preparing it again, solve the same equations
+    res3 = DeterministicSimulator().py_simulate(iface, times)
+    outs['DeterministicSimulator/second-run'] = np.asarray(res3.py_get_result())[:, perm]
+    iface.py_prep_deterministic_simulation()
+    res4 = DeterministicSimulator().py_simulate(iface, times)
+    outs['DeterministicSimulator/re-prepared'] = np.asarray(res4.py_get_result())[:, perm]
+    res5 = py_simulate_model(times, Interface=iface, stochastic=False, return_dataframe=False)
+    outs['py_simulate_model/kept-interface'] = np.asarray(res5.py_get_result())[:, perm]
     for route, out in outs.items():
         c.count('evaluations'); c.count('traces'); c.count('transitions', len(times))
         key = 'C04/%s/%s/' % (sp['name'], route)
@@ -137,7 +145,44 @@ def check(c, item):
         c.sample(dict(model=sp['name'], grid=gname, x_end_ref=ref[-1].tolist(), x_end=outs['py_simulate_model'][-1].tolist()))
 
 
+def sweep(c, item):
+    """one Model and one kept interface, re-parameterised with Model.set_params between runs: every run solves the equations
+    of the current parameter values (closed form of X' = a(1 + e^{-t}/2) - bX, Y' = bX - cY by DOP853 on the reference)"""
+    from bioscrape.simulator import py_simulate_model, DeterministicSimulator, ModelCSimInterface
+    from bioscrape.types import Model
+    gname, via = item
+    times = np.array(GRIDS[gname])
+    c.count('states')
+    Xs, Ys = 'X', 'Y'
+    sp0 = lambda a, b, cc: spec('sweep', [Xs, Ys], {Xs: 1.0, Ys: 0.5},
+                                [gen([], [Xs], ('*', ID('a'), ('+', NUM(1), ('*', NUM(0.5), ('exp', ('neg', ('t',))))))),
+                                 ma([Xs], [Ys], 'b'), ma([Ys], [], 'cc')], params=dict(a=a, b=b, cc=cc))
+    sets = [(1.0, 0.5, 0.3), (2.5, 1.5, 0.3), (0.4, 0.5, 2.0), (1.0, 0.5, 0.3)]
+    m = to_model(sp0(*sets[0]))
+    order = m.get_species_list()
+    perm = [order.index(s_) for s_ in (Xs, Ys)]
+    iface = ModelCSimInterface(m)
+    iface.py_prep_deterministic_simulation()
+    for k, ps in enumerate(sets):
+        m.set_params(dict(a=ps[0], b=ps[1], cc=ps[2]))
+        ref = reference(sp0(*ps), times)
+        if via == 'interface':
+            out = np.asarray(DeterministicSimulator().py_simulate(iface, times).py_get_result())[:, perm]
+        elif via == 'entry-interface':
+            out = np.asarray(py_simulate_model(times, Interface=iface, stochastic=False, return_dataframe=False).py_get_result())[:, perm]
+        else:
+            out = np.asarray(py_simulate_model(times, Model=m, stochastic=False, return_dataframe=False).py_get_result())[:, perm]
+        c.count('evaluations'); c.count('traces'); c.count('transitions', len(times))
+        err = np.abs(out - ref) / (1.0 + np.abs(ref))
+        if out.shape != ref.shape or not np.all(np.isfinite(out)) or err.max() > TOL:
+            c.violation('C04/sweep/%s/trajectory' % via, 'parameter set %d %s on the re-used %s: simulated end state %s, exact %s' % (
+                k, ps, via, out[-1].tolist() if out.ndim == 2 else out.shape, ref[-1].tolist()), dict(spec=dict(name='sweep'), grid=gname, via=via))
+            return
+    c.nontrivial(('sweep', gname, via))
+
+
 def run(ctx):
+    pmap(sweep, [(g, via) for g in ('u025', 'geo', 'two') for via in ('interface', 'entry-interface', 'model')], ctx, nshards=9)
     models = affine_models(ctx.tier) + nonlinear_models(ctx.tier)
     grids = ['u025', 'geo', 'two'] if ctx.quick else list(GRIDS)
     items = [(sp, g) for i, sp in enumerate(models) for gi, g in enumerate(grids)
@@ -150,11 +195,13 @@ def run(ctx):
                 'the bounds), reference = augmented matrix exponential; (b) 13 non-linear families (bimolecular, dimer, third and fourth order '
                 'with repeats, four Hill families, rational, explicitly time-dependent, delayed non-linear) x rates x initial states, '
                 'reference = DOP853 at rtol 1e-12 on the reference right-hand side; (c) uniform, geometric (with a repeated tiny gap) and '
-                'two-point grids from 0. Both entry points. Oracle: first row is the initial condition exactly; every row within '
+                'two-point grids from 0. Both entry points, plus a second run / a re-prepared run / an entry-point run on the same interface object, and a parameter sweep (Model.set_params) on one kept Model and interface. Oracle: first row is the initial condition exactly; every row within '
                 '1e-5*(1+|x|). states = (model, grid) runs.')
     ctx.assumptions = ['finite family of well-posed non-stiff models; continuous parameter domains are represented by the alphabets only',
                        'odeint runs at atol=rtol=1.49e-8, the band is >100x that']
 
 
 def replay(ctx, case):
+    if case['spec'].get('name') == 'sweep':
+        return sweep(ctx, (case['grid'], case['via']))
     check(ctx, (case['spec'], case['grid']))
